@@ -286,19 +286,24 @@ def main():
     sens = [c for c in unions if c["sens"]]
     rest = [c for c in unions if not c["sens"]]
     rng.shuffle(rest)
-    for n, c in enumerate(sens):
-      poss = PARAM_POS + OTHER_POS if thorough else [PARAM_POS[(n + run.seed) % 5]]
+    rng.shuffle(sens)
+    allpos = PARAM_POS + OTHER_POS
+    for n, c in enumerate(sens if thorough else sens[:120]):
+      # thorough: every parameter position and one other; quick: one parameter position
+      poss = PARAM_POS + [OTHER_POS[(n + run.seed) % 3]] if thorough else [PARAM_POS[(n + run.seed) % 5]]
       sigs += [(c["u"], p) for p in poss]
-    for n, c in enumerate(rest if thorough else rest[:70]):
-      poss = PARAM_POS + OTHER_POS if thorough else [(PARAM_POS + OTHER_POS)[(n + run.seed) % 8]]
+    for n, c in enumerate(rest if thorough else rest[:40]):
+      poss = [allpos[(n + run.seed) % 8]]
+      if thorough:
+        poss.append(allpos[(n + run.seed + 3) % 8])
       sigs += [(c["u"], p) for p in poss]
     rng.shuffle(sigs)
-    uprogs = union_programs(sigs, 44)
+    uprogs = union_programs(sigs, 40)
     n_sens_param = sum(1 for u, p in sigs if p in PARAM_POS and
                        any(c["u"] == u and c["sens"] for c in sens))
     run.put("union_signatures", len(sigs))
     run.put("sensitive_unions_in_parameter_position", n_sens_param)
-    common.require(n_sens_param >= 150 and len({p for _, p in sigs}) == 8,
+    common.require(n_sens_param >= 100 and len({p for _, p in sigs}) == 8,
                    "vacuity: union family too small (%d sensitive parameter unions)" % n_sens_param)
     # 2b. open-function family
     multi = [c for c in fns if c["reused"] >= 2]
@@ -323,15 +328,14 @@ def main():
                  "steps": session_steps(procs, seq, {p: 0 for p in procs}, [])})
     # 3b. prefix session: one hash seed, process n starts after n units of unrelated work
     procs = ["w%d" % w for w in WARMUPS]
-    nopen = len(oprogs) if thorough else 7
-    pprogs = ([(s, "protocols") for s in oprogs[:nopen]] + [(oprogs[-1], "default")] +
-              [(uprogs[0], "protocols")] + [(s, "protocols") for s in gen[4:6]])
-    first = pprogs[0]
-    tail = pprogs[1:]
-    rng.shuffle(tail)
-    pprogs = [first] + tail
+    nopen = len(oprogs) if thorough else 6
+    pprogs = [(s, "protocols") for s in oprogs[:nopen]] + [(s, "protocols") for s in gen[4:5]]
+    if thorough:   # three passes: the per-process counters go well beyond 1000
+      pprogs = pprogs + [(uprogs[0], "protocols")] + pprogs + pprogs
+    pprogs.insert(4, (oprogs[-1], "default"))
     progs = {pid_of(s): s for s, _ in pprogs}
     seq = [(pid_of(s), o, "fresh" if n % 3 else "reused") for n, (s, o) in enumerate(pprogs)]
+    common.require(seq[0][1] == "protocols" and seq[0][0] != seq[1][0], "prefix sequence")
     rep = [(seq[0][0], seq[0][1], seq[0][2], {p: (5 * w) % 13 for p, w in zip(procs, WARMUPS)}),
            (seq[1][0], seq[1][1], seq[1][2], {p: 0 for p in procs})]
     jobs.append({"family": "prefix", "seeds": {p: hs[0] for p in procs}, "progs": progs,
@@ -343,9 +347,9 @@ def main():
     common.require(len(hists) > 500, "history space too small: %d" % len(hists))
     mprogs = gen[6:] + snip[2:] + oprogs[3:6] + uprogs[:1]
     rng.shuffle(mprogs)
-    ngroups = 20 if thorough else 5
+    ngroups = 10 if thorough else 5
     pergroup = 12 if thorough else 4
-    per = 6 if thorough else 4
+    per = 6 if thorough else 3
     triples = [mprogs[k:k + 3] for k in range(0, len(mprogs) - 2, 3)][:ngroups * pergroup]
     for g in range(ngroups):
       # several model histories back to back: the processes keep their state in between
@@ -409,14 +413,19 @@ def main():
     common.require(fam["prefix"] and all(p["works"] >= len(WARMUPS) and p["seeds"] == 1 for p in fam["prefix"]),
                    "vacuity: prefix session did not analyse every program after %d amounts of work" % len(WARMUPS))
     nproto = sum(1 for p in fam["prefix"] if p["opt"] == "protocols")
-    common.require(nproto >= 8, "vacuity: prefix session has only %d programs with option protocols" % nproto)
+    common.require(nproto >= 6, "vacuity: prefix session has only %d programs with option protocols" % nproto)
     common.require(sum(1 for p in fam["mixed"] if p["n"] >= 2) >= (100 if thorough else 25) and
                    {p["opt"] for p in fam["mixed"]} == set(OPTS),
                    "vacuity: mixed histories repeat too few (program, options)")
     # the executed sessions embed every pair of the seeds / prefix models
     want = {(h[0]["proc"], h[1]["proc"]) for h in models["seeds"]
             if h[0]["proc"] != h[1]["proc"]}
-    common.require(len(want) == N_SEEDS * (N_SEEDS - 1), "seeds model: %d process pairs" % len(want))
+    first = jobs[0]["steps"][0]["prog"]
+    did = {int(s["proc"][1:]) for s in jobs[0]["steps"] if s["prog"] == first}
+    have = {(x, y) for x in did for y in did if x != y}
+    common.require(len(want) == N_SEEDS * (N_SEEDS - 1) and want <= have,
+                   "vacuity: seeds session misses %d of the model's process pairs" % len(want - have))
+    run.put("seed_pairs_embedded", len(want))
     want = {(h[0]["warm"], h[1]["warm"]) for h in models["prefix"]
             if h[0]["proc"] != h[1]["proc"] and h[0]["warm"] != h[1]["warm"]}
     st = [s for s in jobs[1]["steps"] if s["prog"] == jobs[1]["steps"][0]["prog"]][:len(WARMUPS)]
@@ -432,7 +441,7 @@ def main():
     common.require(tv >= 50, "vacuity: only %d protocols analyses printed >= 2 generated TypeVars" % tv)
     run.put("protocols_analyses_with_typevars", tv)
     un = sum(s["pyi"].count("Union[") for s in results[0] if s["proc"] == "h1")
-    common.require(un >= 200, "vacuity: only %d unions printed by the seeds session" % un)
+    common.require(un >= 120, "vacuity: only %d unions printed by the seeds session" % un)
     run.put("unions_printed_per_process", un)
 
   for rb in tlc.parse_cases(rr.out, "BAD"):
